@@ -1199,3 +1199,231 @@ class token_match_regex:
 
 
 REG.add('sqlparse.sql.Token.match', 'regex form', token_match_regex)
+
+
+# --------------------------------------------------------------------------------- within / has_ancestor / is_child_of (C03)
+# The ancestry of a token is modelled as an abstract sequence ANC of group nodes, nearest first: ANC[0] is the parent,
+# ANC[k+1] the parent of ANC[k], the last one has no parent (I1: parent references name the containing group, so following
+# them walks up the tree and ends at the statement).
+
+def _anc_len(ex, st):
+    return ex.zlen(st, st.ghost['ANC'])
+
+
+def _make_token_with_ancestry(nonempty):
+    def mk(ex, st):
+        W = ex.W
+        sid = ex.new_seg(st, uni={'__class_axioms__': True, '__all_groups__': True}, name='ancestry')
+        anc = ex.new_list(st, [('seg', sid)])
+        st.ghost['ANC'] = anc
+        d = ex.segs(st)[sid]['len']
+        tt = fresh('self_tt', W.TT)
+        val = fresh('self_val', z3.StringSort())
+        me = ex.new_token(st, {'CLS': fresh('self_cls', W.CLS), 'value': SStr(val), 'TXT': SStr(val),
+                               'is_group': SBool(fresh('self_isg', z3.BoolSort())), 'ttype': STy(tt), 'parent': None,
+                               'is_whitespace': False, 'is_keyword': False, 'is_newline': False, 'normalized': SStr(val)})
+        if nonempty:
+            st.assume(d >= 1)
+            r = ex.elem_at(st, anc, z3.IntVal(0))
+            assert len(r) == 1
+            # (ANC[0].parent is set at the loop head, where the walk reads it)
+            st.objs[r[0][1].oid]['parent'] = Opaque('set-at-the-loop-head')
+            st.objs[me.oid]['parent'] = r[0][1]
+        else:
+            st.assume(d == 0)
+        return me
+    return mk
+
+
+def _chain_elem(ex, st, k):
+    """[(state, ANC[k])] with the element's parent field set as the chain defines it (ANC[k+1], or None for the last)"""
+    anc = st.ghost['ANC']
+    out = []
+    for s1, e in ex.elem_at(st, anc, k):
+        d = ex.zlen(s1, anc)
+        for s2, last in ex.decide(s1, z3.simplify(k + 1) >= d):
+            if last:
+                s2.objs[e.oid]['parent'] = None
+                out.append((s2, e))
+            else:
+                for s3, e2 in ex.elem_at(s2, anc, z3.simplify(k + 1)):
+                    s3.objs[e.oid]['parent'] = e2
+                    # the parent of ANC[k+1] is not needed before the next loop head (it is set there)
+                    s3.objs[e2.oid]['parent'] = Opaque('set-at-the-next-loop-head')
+                    out.append((s3, e))
+    return out
+
+
+def _ancpos(ex, st, v):
+    """position of a chain element in ANC; len(ANC) for None"""
+    if v is None:
+        return SInt(_anc_len(ex, st))
+    if isinstance(v, Rec) and '__pos__' in st.objs[v.oid]:
+        return SInt(st.objs[v.oid]['__pos__'])
+    raise OutsideSubset('ANCPOS of a value that is not a chain element')
+
+
+def _in_chain(ex, st, v):
+    if v is None:
+        return True
+    anc = st.ghost['ANC']
+    if isinstance(v, Rec) and '__pos__' in st.objs[v.oid]:
+        base = {ex.segs(st)[it[1]]['base'] if it[0] == 'seg' else st.objs[it[1].oid].get('__base__') for it in st.lists[anc.lid]}
+        if st.objs[v.oid].get('__base__') in base and len(base) == 1:
+            p_ = st.objs[v.oid]['__pos__']
+            return SBool(z3.And(p_ >= 0, p_ < _anc_len(ex, st)))
+    return False
+
+
+def _chain_ghost(pred_src):
+    def gi(ex, st):
+        st.ghost['ANCPOS'] = Func('spec.ANCPOS', model=lambda e, s_, a, k, s: [(s, _ancpos(e, s, a[0]))])
+        st.ghost['INCHAIN'] = Func('spec.INCHAIN', model=lambda e, s_, a, k, s: [(s, _in_chain(e, s, a[0]))])
+        st.ghost['P'] = ex.spec_value(pred_src, st)
+        if 'J' in st.ghost and isinstance(st.env.get('other'), Rec):
+            # definition of MATCH for the concrete predicate P at the position of `other` in the chain
+            val = _closure_value(ex, st, st.ghost['P'], st.env['other'])
+            if val is not None:
+                m = ex.spec_fn('MATCH', [st.ghost['P'], st.ghost['ANC'], st.ghost['J']], {}, st)[0][1]
+                st.assume(m.z == val)
+    return gi
+
+
+def _chain_bind(ex, head):
+    """loop head of the ancestor walk: `parent` is None (the walk is over) or the chain element at some position K"""
+    anc = head.ghost['ANC']
+    d = ex.zlen(head, anc)
+    out = []
+    s_none = head.fork()
+    s_none.env['parent'] = None
+    out.append(s_none)
+    k = fresh('K', z3.IntSort())
+    head.assume(z3.And(k >= 0, k < d))
+    if smt.feasible(head.pc):
+        for s1, e in _chain_elem(ex, head, k):
+            s1.env['parent'] = e
+            # definition of MATCH for the concrete predicate P at this position
+            val = _closure_value(ex, s1, s1.ghost['P'], e)
+            if val is not None:
+                m = ex.spec_fn('MATCH', [s1.ghost['P'], anc, SInt(k)], {}, s1)[0][1]
+                s1.assume(m.z == val)
+            out.append(s1)
+    return out
+
+
+_CHAIN_LOOP = {'0': {'bind': _chain_bind,
+                     'inv': ['INCHAIN(parent)', 'NOMATCH(P, ANC, 0, ANCPOS(parent))'],
+                     'lemmas': []}}
+
+
+class within_c:
+    """t.within(cls) is true iff SOME ancestor of t is an instance of cls (ANC = the chain of ancestors, nearest first)"""
+    exec_class = HeapExec
+    params = {'self': _make_token_with_ancestry(True), 'group_cls': make_cls}
+    ghost_init = staticmethod(_chain_ghost('lambda tk: isinstance(tk, group_cls)'))
+    loops = _CHAIN_LOOP
+    requires = []
+    ensures = ['result == (not NOMATCH(P, ANC, 0, len(ANC)))']
+    raises = []
+    serves = ['C03', 'C07']
+
+
+class within_root:
+    """a token without a parent is within nothing"""
+    exec_class = HeapExec
+    params = {'self': _make_token_with_ancestry(False), 'group_cls': make_cls}
+    ghost_init = staticmethod(_chain_ghost('lambda tk: isinstance(tk, group_cls)'))
+    loops = _CHAIN_LOOP
+    requires = []
+    ensures = ['result == False']
+    raises = []
+    serves = ['C03', 'C07']
+
+
+REG.add('sqlparse.sql.Token.within', 'ancestry', within_c)
+REG.add('sqlparse.sql.Token.within', 'root', within_root)
+
+
+def _other_in_chain(first):
+    def mk(ex, st):
+        anc = st.ghost['ANC']
+        if first:
+            j = z3.IntVal(0)
+        else:
+            j = fresh('J', z3.IntSort())
+            st.assume(z3.And(j >= 1, j < ex.zlen(st, anc)))
+            if not smt.feasible(st.pc):
+                raise OutsideSubset('vacuous')
+        r = ex.elem_at(st, anc, j)
+        assert len(r) == 1
+        if not first:
+            st.objs[r[0][1].oid]['parent'] = Opaque('set-at-the-loop-head')
+        st.ghost['J'] = SInt(j)
+        return r[0][1]
+    return mk
+
+
+def _other_unrelated(ex, st):
+    W = ex.W
+    val = fresh('other_val', z3.StringSort())
+    return ex.new_token(st, {'CLS': fresh('other_cls', W.CLS), 'value': SStr(val), 'TXT': SStr(val),
+                             'is_group': SBool(fresh('other_isg', z3.BoolSort())), 'ttype': STy(fresh('other_tt', W.TT)),
+                             'parent': Opaque('some-parent'), 'is_whitespace': False, 'is_keyword': False,
+                             'is_newline': False, 'normalized': SStr(val)})
+
+
+def _has_ancestor_case(case, self_mk, other_mk, ensures):
+    ns = {'__doc__': 't.has_ancestor(o) is true iff o is one of the ancestors of t (ANC = the chain of ancestors, nearest '
+                     'first; token objects compare by identity: side-condition obligations); case: ' + case,
+          'exec_class': HeapExec, 'params': {'self': self_mk, 'other': other_mk},
+          'ghost_init': staticmethod(_chain_ghost('lambda tk: tk == other')), 'loops': _CHAIN_LOOP, 'requires': [],
+          'ensures': ensures, 'raises': [], 'serves': ['C03', 'C07']}
+    REG.add('sqlparse.sql.Token.has_ancestor', case, type('has_ancestor_c', (), ns))
+    return ('sqlparse.sql.Token.has_ancestor', case)
+
+
+ANCESTRY_CASES = [
+    ('sqlparse.sql.Token.within', 'ancestry'), ('sqlparse.sql.Token.within', 'root'),
+    _has_ancestor_case('other is the parent', _make_token_with_ancestry(True), _other_in_chain(True), ['result == True']),
+    _has_ancestor_case('other is a farther ancestor', _make_token_with_ancestry(True), _other_in_chain(False),
+                       ['result == True']),
+    _has_ancestor_case('other is not an ancestor', _make_token_with_ancestry(True), _other_unrelated,
+                       ['result == False', 'NOMATCH(P, ANC, 0, len(ANC))']),
+    _has_ancestor_case('root', _make_token_with_ancestry(False), _other_unrelated, ['result == False']),
+]
+
+
+class is_child_of_c:
+    """t.is_child_of(o) is true iff o is t's parent (identity of token objects)"""
+    exec_class = HeapExec
+    params = {'self': _make_token_with_ancestry(True), 'other': _other_in_chain(True)}
+    requires = []
+    ensures = ['result == True']
+    raises = []
+    serves = ['C03', 'C07']
+
+
+class is_child_of_not:
+    exec_class = HeapExec
+    params = {'self': _make_token_with_ancestry(True), 'other': _other_in_chain(False)}
+    requires = []
+    ensures = ['result == False']
+    raises = []
+    serves = ['C03', 'C07']
+
+
+class is_child_of_unrelated:
+    exec_class = HeapExec
+    params = {'self': _make_token_with_ancestry(True), 'other': _other_unrelated}
+    requires = []
+    ensures = ['result == False']
+    raises = []
+    serves = ['C03', 'C07']
+
+
+REG.add('sqlparse.sql.Token.is_child_of', 'other is the parent', is_child_of_c)
+REG.add('sqlparse.sql.Token.is_child_of', 'other is a farther ancestor', is_child_of_not)
+REG.add('sqlparse.sql.Token.is_child_of', 'other is another token', is_child_of_unrelated)
+ANCESTRY_CASES += [('sqlparse.sql.Token.is_child_of', 'other is the parent'),
+                   ('sqlparse.sql.Token.is_child_of', 'other is a farther ancestor'),
+                   ('sqlparse.sql.Token.is_child_of', 'other is another token')]
